@@ -19,10 +19,18 @@ LEVEL_TEXT = ("Proof: over the reals the coded information gain is [sum(ln rA - 
               "forecast objects (stored rates x scale factor, optionally divided by the horizon in days, looked up at the "
               "events' bins); with a common horizon scale=True keeps the log-rate differences and divides the totals; the binary "
               "variant equals the paired test when no bin holds two events; the W-test swap invariance is derived from the "
-              "float64 operations X1-X2 and (N1-N2)/N themselves. "
+              "float64 operations X1-X2 and (N1-N2)/N themselves. Round 4: with the survival function of the standard normal "
+              "law itself (Mathlib's gaussianReal 0 1; sf(0) = 1/2, sf(z) + sf(-z) = 1, sf non-increasing, from symmetry and "
+              "the absence of atoms) p = 2 sf(|z|) is in [0,1] for every z, equals 1 at z = 0 and is non-increasing in |z| - "
+              "the hypothesis on sf is gone; the tie correction as the SOURCE forms it (numpy.unique on the ranks) equals the "
+              "model's grouping of equal |d| for every list, because the average rank is strictly increasing on the values "
+              "that occur; SciPy 1.18's rankdata algorithm (stable sort, runs of equal values, scatter back) is modelled and "
+              "proved equal to the counting specification #{<} + (#{=}+1)/2 for every list; both forecast objects carrying "
+              "the same positive factor keep the log-rate differences and the variance of Eq. 18. "
               "Tied to the code by a correspondence on generated forecasts/catalogs (rank arithmetic exact, statistics to 1e-9).")
-LEVEL_NOTE = ("T-test theorems are over the reals (Float instance executed); Student-t quantile and normal survival function are "
-              "parameters supplied by scipy; float rounding of log/sqrt is outside the theorems. With scale=True the code scales "
+LEVEL_NOTE = ("T-test theorems are over the reals (Float instance executed); the Student-t quantile is a parameter supplied by "
+              "scipy (only t_crit >= 0 is used); the normal survival function is the real function P(Z > z) in the theorems and "
+              "scipy.stats.norm.sf in the executed comparison (that scipy computes it is trusted); float rounding of log/sqrt is outside the theorems. With scale=True the code scales "
               "the rates and totals of the T-test but uses the UNSCALED totals for the W-test's null median and the unscaled "
               "rates for the binary variant (modelled as is; the property does not fix this).")
 DESIGN_REF = "DESIGN.md §4 C08"
@@ -43,11 +51,21 @@ THEOREMS = ["PairedTests.ig_formula", "PairedTests.var_eq_sample_variance", "Pai
             "PairedTests.w_public_self_degenerate",
             # phase 2
             "PairedTests.ig_strict_mono_rate", "PairedTests.ig_strict_anti_rate", "PairedTests.mag_index_open_top",
-            "PairedTests.mag_index_some_iff"]
+            "PairedTests.mag_index_some_iff",
+            # round 4, Properties/C08_Deep.lean: the normal survival function itself; the source's grouping of the ranks
+            "PairedTests.normal_sf_half", "PairedTests.normal_sf_facts", "PairedTests.w_p_bounds_normal",
+            "PairedTests.w_p_normal_at_zero", "PairedTests.w_p_normal_antitone_abs", "PairedTests.w_p_even",
+            "PairedTests.w_test_result", "PairedTests.w_public_result", "PairedTests.rank_strict_mono",
+            "PairedTests.rank_eq_iff", "PairedTests.tie_groups_by_rank", "PairedTests.rankdata_algorithm_eq_spec",
+            "PairedTests.public_t_common_rescale"]
 TRUSTED = ["Lean 4.33 kernel", "axioms: propext, Classical.choice, Quot.sound at most",
-           "scipy.stats.t.ppf and scipy.stats.norm.sf are parameters of the model (norm.sf in [0,1/2] on [0,inf) is a hypothesis)",
+           "scipy.stats.t.ppf is a parameter of the model; scipy.stats.norm.sf is taken to compute P(Z > z) of the standard normal "
+           "law (its range [0,1/2] on [0,inf) is no longer a hypothesis: PairedTests.normal_sf_half)",
            "scipy.stats.wilcoxon(zero_method='wilcox', correction=False, method='approx') is used as a third opinion on T and p",
-           "scipy.stats.rankdata(method='average') is modelled by #{<} + (#{=}+1)/2; numpy.unique(return_counts) by dedup+count",
+           "scipy.stats.rankdata(method='average'): SciPy 1.18's algorithm (stable sort, runs, scatter back) is modelled "
+           "(rankdata2), proved equal to #{<} + (#{=}+1)/2 (PairedTests.rankdata_algorithm_eq_spec) and compared with the "
+           "installed scipy on every run; numpy.unique(return_counts) by dedup+count (that grouping the ranks is grouping the "
+           "values is proved: PairedTests.tie_groups_by_rank)",
            "Soft64.fl64 is IEEE binary64 round-to-nearest-even (d = x - m); validated against numpy on every run",
            "float rounding of log / sqrt / sums is outside the theorems (1e-9 comparison, condition-aware for the variance)",
            "harness/c08.py generators and comparison; driver parsing (Proto.lean)"]
@@ -59,7 +77,11 @@ RULE = ("pairs of positive-rate GriddedForecasts on a common CartesianGrid2D (1.
         "strided views, integer dtype; rates 1e-300..1e-10 in the events' bins; keyword / positional / default call forms "
         "and direct helper calls; NaN depth / epoch 0 / shared origin times / big-endian catalogs; one case with > 65535 "
         "events in one bin on > 2^16 bins; sessions of 4-8 calls (tests in any orientation with scale on/off, .scale(), "
-        "catalog cut in place, reads, a twin forecast on the same array) recomputed from scratch after every evaluation; "
+        "catalog cut in place, reads, a twin forecast on the same array, scale_to_test_date inside / outside the period) "
+        "recomputed from scratch after every evaluation; forecasts B that differ from A by a few ulps in a few bins "
+        "(log-rate differences and null median of order 1e-16, not zero); horizons that are not whole days (scale=True "
+        "divides by the whole days elapsed); the factor of the forecast objects set by scale_to_test_date, also after an "
+        "earlier scale(); "
         "every test called A/B, B/A and A/A. A case is non-trivial when the differences contain a tie, a zero or "
         "both signs; distinct by the full input")
 
@@ -68,6 +90,7 @@ DT = [('id', 'S256'), ('origin_time', '<i8'), ('latitude', '<f8'), ('longitude',
 
 
 _MIDX = []      # pending bin-index queries (case, driver line, implementation's flat indices)
+_TIES = []      # pending tie-term queries (case, driver line, sum over groups of tied ranks of t(t^2-1) by the harness)
 
 
 def bits(x):
@@ -110,7 +133,7 @@ def _gen_case(rng):
     nx, ny, nm = rng.randint(1, 6), rng.randint(1, 5), rng.randint(1, 3)
     nc = nx * ny
     g = numpy.random.default_rng(rng.randrange(2 ** 32))
-    kind = rng.choice(["random", "random", "proportional", "dyadic-perm", "partly-equal", "pool", "wide"])
+    kind = rng.choice(["random", "random", "proportional", "dyadic-perm", "partly-equal", "pool", "wide", "near-equal"])
     if kind == "random":
         a = g.uniform(1e-3, 2.0, (nc, nm)); b = g.uniform(1e-3, 2.0, (nc, nm))
     elif kind == "wide":
@@ -124,6 +147,15 @@ def _gen_case(rng):
         sh = idx[:]; rng.shuffle(sh)
         b[idx] = a.ravel()[sh]
         b = b.reshape(nc, nm)
+    elif kind == "near-equal":
+        # B differs from A by a few ulps in a few bins: log-rate differences and null median of order 1e-16, not zero
+        # ("at least one log-rate difference distinct from the null median" has no lower bound on the distance)
+        a = g.integers(1, 65, (nc, nm)) / 64.0 if rng.random() < 0.5 else g.uniform(1e-3, 2.0, (nc, nm))
+        b = a.copy()
+        for _ in range(rng.randint(1, 3)):
+            i = rng.randrange(b.size)
+            b.flat[i] = b.flat[i] * (1.0 + rng.choice([1, -1]) * rng.choice([1, 2, 3, 8, 1000, 3000, 10 ** 5, 10 ** 7])
+                                     * 2.0 ** -52)
     elif kind == "partly-equal":
         a = g.uniform(1e-3, 2.0, (nc, nm)); b = a.copy()
         mask = g.random((nc, nm)) < 0.5
@@ -136,6 +168,12 @@ def _gen_case(rng):
     ncell_used = rng.choice([1, 2, 3, 4, 6, 10, nc * nm, nc * nm])
     pool = [(rng.randrange(nc), rng.randrange(nm)) for _ in range(ncell_used)]
     ev = [rng.choice(pool) for _ in range(n)]
+    if kind == "near-equal" and rng.random() < 0.7:
+        # make sure some events sit in the perturbed bins
+        diff = [i for i in range(a.size) if a.flat[i] != b.flat[i]]
+        for j in range(min(len(ev), rng.randint(1, 3)) if diff else 0):
+            i = rng.choice(diff)
+            ev[j] = (i // nm, i % nm)
     alpha = rng.choice([0.01, 0.05, 0.1, 0.05, round(rng.uniform(0.001, 0.999), 3)])
     scale = rng.random() < 0.4
     days_a = rng.choice([1, 30, 365, 366, 1826])
@@ -155,6 +193,13 @@ def _gen_case(rng):
     case = dict(kind=kind, nx=nx, ny=ny, nm=nm, a=[float(v).hex() for v in a.ravel()],
                 b=[float(v).hex() for v in b.ravel()], ev=[list(e) for e in ev], alpha=alpha, scale=scale,
                 days_a=days_a, days_b=days_b)
+    # horizons that are not whole days: `scale=True` divides by `(end_time - start_time).days` (whole days elapsed)
+    if rng.random() < 0.25:
+        case["extra_s"] = [rng.choice([3600, 43200, 86399, 1]), rng.choice([0, 3600, 86399])]
+    # the factor of the forecast objects set through scale_to_test_date (inside the period) instead of scale()
+    if rng.random() < 0.15:
+        case["testdate"] = [rng.choice([rng.randint(0, max(days_a - 1, 0)), days_a, 0]), rng.randint(0, 23),
+                            rng.choice([None, 0.5, 2.0, 3])]
     # --- input classes of the public functions (round 3) ---
     # the forecast objects were rescaled with .scale(s) before the tests (rates = stored rates x factor)
     if rng.random() < 0.35:
@@ -186,6 +231,15 @@ def _gen_case(rng):
     return case
 
 
+def _decyear(dt):
+    """the harness's own decimal year (year + elapsed fraction of that year, leap years counted)"""
+    import calendar
+    ndy = 366.0 if calendar.isleap(dt.year) else 365.0
+    nd = sum(calendar.monthrange(dt.year, i)[1] for i in range(1, dt.month))
+    return dt.year + (nd + (dt.day - 1) + dt.hour / 24.0 + dt.minute / 1440.0
+                      + (dt.second + dt.microsecond * 1e-6) / 86400.0) / ndy
+
+
 def _build(case):
     from csep.core.forecasts import GriddedForecast
     from csep.core.catalogs import CSEPCatalog
@@ -206,11 +260,27 @@ def _build(case):
             return x.astype(numpy.int64)
         return x
     st = datetime.datetime(2020, 1, 1)
-    fa = GriddedForecast(start_time=st, end_time=st + datetime.timedelta(days=case["days_a"]), data=laid(a), region=region,
-                         magnitudes=mags, name="A")
-    fb = GriddedForecast(start_time=st, end_time=st + datetime.timedelta(days=case["days_b"]), data=laid(b), region=region,
-                         magnitudes=mags, name="B")
-    if case.get("fscale"):
+    xs = case.get("extra_s") or [0, 0]
+    fa = GriddedForecast(start_time=st, end_time=st + datetime.timedelta(days=case["days_a"], seconds=xs[0]), data=laid(a),
+                         region=region, magnitudes=mags, name="A")
+    fb = GriddedForecast(start_time=st, end_time=st + datetime.timedelta(days=case["days_b"], seconds=xs[1]), data=laid(b),
+                         region=region, magnitudes=mags, name="B")
+    if case.get("testdate") and (not case.get("fscale") or case.get("fscale_from_testdate")):
+        # scale_to_test_date: the harness books the factor it is documented to set (fraction of the period elapsed at the end
+        # of the test day, in decimal years); outside the period the forecast stays as it is
+        t = st + datetime.timedelta(days=case["testdate"][0], hours=case["testdate"][1])
+        fsc = []
+        for f in (fa, fb):
+            if len(case["testdate"]) > 2 and case["testdate"][2]:
+                f.scale(case["testdate"][2])          # an earlier factor: scale_to_test_date REPLACES it (inside the period)
+            f.scale_to_test_date(t)
+            inside = f.start_time < t < f.end_time
+            fsc.append((_decyear(t + datetime.timedelta(1)) - _decyear(f.start_time))
+                       / (_decyear(f.end_time) - _decyear(f.start_time)) if inside
+                       else ((case["testdate"][2] or 1) if len(case["testdate"]) > 2 else 1))
+        case["fscale"] = fsc
+        case["fscale_from_testdate"] = True
+    elif case.get("fscale"):
         fa.scale(case["fscale"][0])
         fb.scale(case["fscale"][1])
     ev = case["ev"]
@@ -270,10 +340,8 @@ def _ref_t(ra, rb, n, na, nb, alpha):
     return dict(ig=ig, t=t, tcrit=tc, lower=ig - half, upper=ig + half, kappa=kappa, var=var, first=first, mag=mag)
 
 
-def _ref_w(x, m):
-    """signed-rank arithmetic in exact rationals on d = x - m (float64 subtraction), average ranks for ties"""
-    d0 = [float(v) for v in (numpy.asarray(x, dtype=float) - float(m))]
-    d = [v for v in d0 if v != 0.0]
+def _rank_stats(d):
+    """signed-rank arithmetic in exact rationals on zero-free differences: (r_plus, r_minus, T, mn, 24 se^2, tie sizes)"""
     c = len(d)
     ab = sorted(abs(v) for v in d)
     rank = {}
@@ -291,11 +359,118 @@ def _ref_w(x, m):
     t = min(rp, rm)
     mn = Fraction(c * (c + 1), 4)
     se24 = Fraction(c * (c + 1) * (2 * c + 1)) - Fraction(sum(k * (k * k - 1) for k in ties if k > 1), 2)
+    return rp, rm, t, mn, se24, ties
+
+
+def _z_of(t, mn, se24):
+    return (float(t) - float(mn)) / math.sqrt(float(se24) / 24)
+
+
+def _weak_orders(g):
+    """all weak orderings of g items as level tuples (levels used = 0..k-1): 1, 3, 13, 75 for g = 1..4"""
+    import itertools
+    return [lv for lv in itertools.product(range(g), repeat=g) if set(lv) == set(range(max(lv) + 1))]
+
+
+def _ref_w(x, m, keys=None):
+    """signed-rank arithmetic in exact rationals on d = x - m (float64 subtraction), average ranks for ties"""
+    d0 = [float(v) for v in (numpy.asarray(x, dtype=float) - float(m))]
+    d = [v for v in d0 if v != 0.0]
+    c = len(d)
+    rp, rm, t, mn, se24, ties = _rank_stats(d)
+    # Is the pattern of zeros / signs / ranks determined beyond rounding? The property speaks of "the log-rate differences
+    # about (N_A - N_B)/N": differences that are zero, or tie, or are ordered only at the level of the last bits of
+    # log(a) - log(b) - m depend on HOW these three float operations are arranged (log(a/b), fused, other order), which the
+    # property does not fix. The exact comparison is made only when every non-zero |d| and every gap between distinct
+    # |d| exceeds `band`; exact zeros count as robust only when x and m are both exactly 0 (identical rates, equal totals).
+    xs = [float(v) for v in numpy.asarray(x, dtype=float)]
+    keys = list(keys) if keys is not None else None
+    # size of the band: 64 ulps of the largest number that enters log(a) - log(b) - m (the rounding of each of the three
+    # operations is relative to ITS operands, not to the tiny difference that may be left)
+    try:
+        lg = [abs(math.log(v)) for k_ in (keys or []) for v in k_]
+    except (TypeError, ValueError):
+        lg = []
+    band = 64 * 2.2e-16 * max([abs(float(m))] + [abs(v) for v in xs] + (lg or [1.0]) + [1e-300])
+    # a tie is beyond rounding only between events with IDENTICAL inputs (the same pair of rates: any deterministic
+    # elementwise formula gives them the same difference); two different pairs with equal |d| (e.g. (a, b) and (b, a) at
+    # a zero median: log a - log b = -(log b - log a) exactly, but log(a/b) != -log(b/a)) are inside the band
+    keys = keys if keys is not None else list(range(len(xs)))
+    per_group = {}
+    for k_, v in zip(keys, d0):
+        per_group.setdefault(k_, abs(v))
+    dist = sorted(v for v in per_group.values() if v != 0.0)
+    zeros_ok = all((v != 0.0) or (xv == 0.0 and float(m) == 0.0) for v, xv in zip(d0, xs))
+    robust = all(v > band for v in dist) and all(q - p > band for p, q in zip(dist, dist[1:])) and zeros_ok
+    # Second tier: the ONLY thing inside the band is an exact coincidence |d_g| = |d_h| between different rate pairs
+    # (typically (a, b) and (b, a) at a zero median); everything else is clear. Another arrangement of the float operations
+    # may keep such a tie or break it either way, nothing more: the admissible results are the signed-rank statistics of
+    # every weak ordering inside each such cluster (`alts`). A result outside this set (e.g. tied ranks whose variance
+    # correction is missing) is wrong under every arrangement.
+    alts = None
+    vals = sorted(set(dist))
+    if (not robust) and zeros_ok and vals and all(v > band for v in vals) \
+            and all(q - p > band for p, q in zip(vals, vals[1:])):
+        clusters = [[k_ for k_, v in per_group.items() if v == u] for u in vals]
+        clusters = [cl for cl in clusters if len(cl) > 1]
+        n_alt = 1
+        for cl in clusters:
+            n_alt *= {2: 3, 3: 13, 4: 75}.get(len(cl), 10 ** 9)
+        if clusters and n_alt <= 3000:
+            import itertools
+            alts = []
+            step = band / 16.0
+            for combo in itertools.product(*[_weak_orders(len(cl)) for cl in clusters]):
+                shift = {}
+                for cl, lv in zip(clusters, combo):
+                    for k_, l_ in zip(cl, lv):
+                        shift[k_] = l_ * step
+                dd = [math.copysign(abs(v) + shift.get(k_, 0.0), v) for k_, v in zip(keys, d0) if v != 0.0]
+                _, _, t_, mn_, se_, _ = _rank_stats(dd)
+                alts.append(_z_of(t_, mn_, se_))
     return dict(count=c, t2=2 * t, mn4=4 * mn, se24=se24, rp=rp, rm=rm, d=d, d0=d0,
-                tie=any(k > 1 for k in ties), signs=(rp > 0 and rm > 0))
+                tie=any(k > 1 for k in ties), signs=(rp > 0 and rm > 0), robust=robust, alts=alts,
+                clear=sum(1 for v in d0 if abs(v) > band))
 
 
 # ----------------------------------------------------------------------------- one case
+_PRIV = {}
+
+
+def _private(run, mod, name, *probe):
+    """a private helper of the tree under test if it exists and accepts the documented positional arguments, else None
+    (counted; the public functions reach the same code and carry every clause of the property)"""
+    key = (mod.__name__, name)
+    if key not in _PRIV:
+        import inspect
+        fn = getattr(mod, name, None)
+        if fn is not None:
+            try:
+                inspect.signature(fn).bind(*probe)
+            except TypeError:
+                fn = None
+            except ValueError:
+                pass
+        _PRIV[key] = fn
+        if fn is None:
+            run.assumptions.append(f"private helper {mod.__name__}.{name} is absent (or has another signature) on the tree under "
+                                   f"test: its direct calls are skipped, the public tests carry the clauses")
+    if _PRIV[key] is None:
+        run.count(f"helper-missing:{name}")
+    return _PRIV[key]
+
+
+def _w_count_clear(case, a, b, scale, n):
+    """number of log-rate differences CLEARLY distinct from the null median, from the harness's own numbers"""
+    da = a / case["days_a"] if scale else a
+    db = b / case["days_b"] if scale else b
+    x = [math.log(float(da[c, m])) - math.log(float(db[c, m])) for c, m in case["ev"]]
+    med = (math.fsum(a.ravel().tolist()) - math.fsum(b.ravel().tolist())) / n
+    lg = [abs(math.log(float(arr[c, m]))) for arr in (da, db) for c, m in case["ev"]]
+    band = 64 * 2.2e-16 * max([abs(med)] + [abs(v) for v in x] + lg + [1e-300])
+    return sum(1 for v in x if abs(v - med) > band)
+
+
 def _check(run, drv, pending, case, tag):
     import scipy.stats
     from csep.core import poisson_evaluations as pe, binomial_evaluations as be
@@ -336,6 +511,13 @@ def _check(run, drv, pending, case, tag):
             if out[name] is None:
                 raise RuntimeError("None returned")
         except Exception as e:   # "return a result for any two positive-rate forecasts ... and any catalog of >= 2 events"
+            # two classes are OUTSIDE that clause and may as well be refused with an exception: a W-test without any
+            # log-rate difference distinct from the null median (the quantifier excludes it), and the binary variant with
+            # a single active bin (N - 1 = 0: no variance, no t statistic; the present code returns nan)
+            if name.startswith("w") and _w_count_clear(case, a, b, scale, n) == 0:
+                run.count("w:no-difference-from-median:refused-with-exception"); out[name] = None; continue
+            if name.startswith("b") and len(set(map(tuple, case["ev"]))) < 2:
+                run.count("binary:one-active-bin:refused-with-exception"); out[name] = None; continue
             run.oracle_failure(short, f"{name}: no result, {type(e).__name__}: {e}")
             return
     # inputs as the harness knows them (cell/magnitude index of every event is generated, not looked up)
@@ -347,9 +529,11 @@ def _check(run, drv, pending, case, tag):
     # ---- T-test: independent recomputation, antisymmetry, mirror, self-comparison
     try:
         tab, tba, taa = _tres(out["tAB"]), _tres(out["tBA"]), _tres(out["tAA"])
-        bab, bba = _tres(out["bAB"]), _tres(out["bBA"])
-        zab, pab = float(out["wAB"].observed_statistic), float(out["wAB"].quantile)
-        zba, pba = float(out["wBA"].observed_statistic), float(out["wBA"].quantile)
+        nanres = dict(ig=float("nan"), t=float("nan"), tcrit=float("nan"), lower=float("nan"), upper=float("nan"))
+        bab = _tres(out["bAB"]) if out["bAB"] is not None else nanres
+        bba = _tres(out["bBA"]) if out["bBA"] is not None else nanres
+        zab, pab = (float(out["wAB"].observed_statistic), float(out["wAB"].quantile)) if out["wAB"] is not None else (float("nan"),) * 2
+        zba, pba = (float(out["wBA"].observed_statistic), float(out["wBA"].quantile)) if out["wBA"] is not None else (float("nan"),) * 2
         ia, nfa = _call(fa.target_event_rates, cat, scale=scale)
         ib, nfb = _call(fb.target_event_rates, cat, scale=scale)
         ia = [float(v) for v in numpy.asarray(ia).ravel()]; ib = [float(v) for v in numpy.asarray(ib).ravel()]
@@ -379,7 +563,9 @@ def _check(run, drv, pending, case, tag):
     if not abs(taa["ig"]) <= 1e-12:
         run.oracle_failure(short, f"self-comparison has gain {taa['ig']!r}")
     # ---- W-test: rank arithmetic on the implementation's own rates (public target_event_rates), swap invariance
-    if ia != ra or ib != rb:
+    def rates_eq(u, v):
+        return len(u) == len(v) and all(_same(p_, q_, 1e-12, 0.0) for p_, q_ in zip(u, v))
+    if not (rates_eq(ia, ra) and rates_eq(ib, rb)):
         run.oracle_failure(short, "target_event_rates are not the rates of the events' bins")
     with numpy.errstate(all="ignore"):
         x = numpy.log(numpy.asarray(ia, dtype=float)) - numpy.log(numpy.asarray(ib, dtype=float))
@@ -393,8 +579,28 @@ def _check(run, drv, pending, case, tag):
                                   f"event: rates {ia[:5]!r} {ib[:5]!r}, totals {n1!r} {n2!r}")
         return
     m = (n1 - n2) / n
-    w = _ref_w(x, m)
-    if w["count"] >= 1:
+    w = _ref_w(x, m, keys=zip(ia, ib))
+    if w["count"] >= 1 and not w["robust"]:
+        # zeros / ties / order of the differences hang on the last bits of log(a) - log(b) - m: only what holds for every
+        # arrangement of these operations is required (theorems w_test_result, w_p_bounds_normal): a finite z <= 0 and
+        # p = 2 sf(|z|) in [0, 1] in both orders - provided some difference is clearly distinct from the median
+        run.count("w:rank-pattern-inside-rounding-band")
+        if w["alts"] is not None:
+            run.count("w:ties-between-different-rate-pairs:admissible-set")
+            for z_, p_, nm_ in ((zab, pab, "A/B"), (zba, pba, "B/A")):
+                if not any(_same(z_, zr) and _same(p_, 2.0 * float(scipy.stats.norm.sf(abs(zr))), 1e-9, 1e-300) for zr in w["alts"]):
+                    run.oracle_failure(short, f"W-test ({nm_}) z={z_!r} p={p_!r} is none of the signed-rank results that keeping or "
+                                              f"breaking the coincident |d| of different rate pairs allows: "
+                                              f"{sorted(set(round(v, 12) for v in w['alts']))[:8]!r}")
+        elif w["clear"] >= 1:
+            for z_, p_ in ((zab, pab), (zba, pba)):
+                if not (math.isfinite(z_) and z_ <= 1e-12 and 0.0 <= p_ <= 1.0
+                        and _same(p_, 2.0 * float(scipy.stats.norm.sf(abs(z_))), 1e-9, 1e-300)):
+                    run.oracle_failure(short, f"W-test z={z_!r} p={p_!r}: not a finite z <= 0 with p = 2 sf(|z|) in [0,1]")
+        elif not (math.isfinite(zab) and math.isfinite(zba)):
+            # every difference is within rounding of the median: the test may see none (outside the quantifier)
+            run.count("w:all-differences-inside-rounding-band")
+    elif w["count"] >= 1:
         zr = (float(w["t2"]) / 2 - float(w["mn4"]) / 4) / math.sqrt(float(w["se24"]) / 24)
         pr = 2.0 * float(scipy.stats.norm.sf(abs(zr)))
         if not (_same(zab, zr) and _same(pab, pr)):
@@ -458,17 +664,20 @@ def _check(run, drv, pending, case, tag):
             r0 = [float(v) for v in fa.get_rates(lons, lats, mg)]                       # data=None: the forecast's own rates
             r1, (ix, im) = fa.get_rates(lons, lats, mg, data=fa.data * 2.0, ret_inds=True)
             want = [float(a[c, m]) for c, m in case["ev"]]
-            if r0 != want or [float(v) for v in r1] != [2.0 * v for v in want] \
+            if not rates_eq(r0, want) or not rates_eq([float(v) for v in r1], [2.0 * v for v in want]) \
                     or [(int(i), int(j)) for i, j in zip(ix, im)] != [tuple(e) for e in case["ev"]]:
                 run.oracle_failure(short, "get_rates (data=None / data=, ret_inds=True) does not return the rates / indices of "
                                           "the events' bins")
-            h = _call(pe._t_test_ndarray, numpy.array(ra), numpy.array(rb), n, na, nb)     # alpha left at its default 0.05
-            href = _ref_t(ra, rb, n, na, nb, 0.05)
-            if not (_same(float(h["information_gain"]), ref["ig"], 1e-9, 1e-9 * scale_ig)
-                    and _same(float(h["t_critical"]), href["tcrit"], 1e-9)):
-                run.oracle_failure(short, f"_t_test_ndarray with default alpha: {h!r}")
-            if w["count"] >= 1:
-                h0 = _call(pe._w_test_ndarray, numpy.asarray(w["d0"]))                     # m left at its default 0
+            t_helper = _private(run, pe, "_t_test_ndarray", [1.0], [1.0], 2, 1.0, 1.0)
+            if t_helper is not None:
+                h = _call(t_helper, numpy.array(ra), numpy.array(rb), n, na, nb)     # alpha left at its default 0.05
+                href = _ref_t(ra, rb, n, na, nb, 0.05)
+                if not (_same(float(h["information_gain"]), ref["ig"], 1e-9, 1e-9 * scale_ig)
+                        and _same(float(h["t_critical"]), href["tcrit"], 1e-9)):
+                    run.oracle_failure(short, f"_t_test_ndarray with default alpha: {h!r}")
+            w_helper = _private(run, pe, "_w_test_ndarray", [1.0]) if (w["count"] >= 1 and w["robust"]) else None
+            if w_helper is not None:
+                h0 = _call(w_helper, numpy.asarray(w["d0"]))                     # m left at its default 0
                 if not (_same(float(h0["z_statistic"]), zab) and _same(float(h0["probability"]), pab)):
                     run.oracle_failure(short, f"_w_test_ndarray(x - m) with default m differs from w_test: {h0!r} vs z={zab!r}")
             run.count("helpers-called-directly")
@@ -501,6 +710,18 @@ def _check(run, drv, pending, case, tag):
     i_t = drv.ask(f"c08_t {blist(ia)} {blist(ib)} {n} {bits(out_nf(fa, scale, case['days_a']))} "
                   f"{bits(out_nf(fb, scale, case['days_b']))} {bits(tc)}")
     i_w = drv.ask(f"c08_w {','.join(frac(float(v)) for v in x)} {frac(m)}")
+    if n <= 60:
+        # the tie correction grouped by RANK (as the source does) and by VALUE (as the model's se24 does), against the
+        # harness's own grouping of the sorted |d|
+        ab = sorted(abs(v) for v in w["d"])
+        groups = [sum(1 for v in ab if v == u) for u in sorted(set(ab))]
+        _TIES.append((short, drv.ask(f"c08_ties {','.join(frac(float(v)) for v in x)} {frac(m)}"),
+                      sum(k * (k * k - 1) for k in groups if k > 1)))
+        if w["d"]:
+            # the model of SciPy's rank algorithm against the installed scipy.stats.rankdata on the |d| the test ranks
+            absd = [abs(v) for v in w["d"]]
+            want = [int(round(2 * float(r))) for r in scipy.stats.rankdata(numpy.asarray(absd))]
+            _TIES.append((short, drv.ask(f"c08_rank {','.join(frac(v) for v in absd)}"), ",".join(map(str, want))))
     i_b = None
     if nact >= 2:
         tcb = float(scipy.stats.t.ppf(1 - alpha / 2, nact - 1))
@@ -539,6 +760,13 @@ def _flush(run, drv, pending):
         if out[q] != ",".join(str(v) for v in impl_flat):
             run.mismatch(short, impl_flat, out[q])
     _MIDX.clear()
+    for short, q, want in _TIES:
+        if isinstance(want, str):
+            if out[q] != want:
+                run.mismatch(short, dict(scipy_rankdata_doubled=want), out[q])
+        elif out[q].split() != [str(want), str(want)]:
+            run.mismatch(short, dict(tie_term=want), out[q])
+    _TIES.clear()
     bitexact = [0, 0]
     for short, i_t, i_w, i_b, tab, cond_tol, w, zab, bab, act, degenerate, bdeg, i_pt, i_pb, i_pw, totals in pending:
         # T: array-level model (rates and totals from the implementation) and public model (rates looked up and totals
@@ -572,7 +800,7 @@ def _flush(run, drv, pending):
             except Exception:
                 okw, zm = False, None
             if w["count"] >= 1:
-                if not (okw and _same(zab, zm)):
+                if not (okw and (_same(zab, zm) or not w["robust"])):
                     run.mismatch(short, dict(z=zab, count=w["count"], t2=str(w["t2"]), mn4=str(w["mn4"]),
                                              se24=str(w["se24"])), out[idx])
                 if idx == i_w:
@@ -631,13 +859,17 @@ def _gen_session(rng):
     case["layout"] = "C" if case.get("layout") == "int64" else case.get("layout", "C")
     steps = []
     for _ in range(rng.randint(4, 8)):
-        op = rng.choice(["t", "t", "w", "w", "b", "fscale", "fscale", "catcut", "ntest", "rates", "counts", "shared"])
+        op = rng.choice(["t", "t", "w", "w", "b", "fscale", "fscale", "catcut", "ntest", "rates", "counts", "shared", "testdate"])
         st = dict(op=op, order=rng.choice(["AB", "BA", "AA"]), scale=rng.random() < 0.5,
                   alpha=rng.choice([0.05, 0.01, 0.1]))
         if op == "fscale":
             st.update(which=rng.choice("ab"), v=rng.choice([0.5, 2.0, 1, 3, 0.1, 10.0]))
         if op == "catcut":
             st["cut"] = rng.choice([4.5, 5.0])
+        if op == "testdate":
+            # scale_to_test_date on one of the objects: day offset from the start (also before / after the period), hour
+            st.update(which=rng.choice("ab"), t=[rng.choice([-1, 0, 0, 1, 7, 29, 30, 364, 365, 400, 2000, rng.randint(0, 400)]),
+                                                 rng.choice([0, 0, 6, 23])])
         steps.append(st)
     case["steps"] = steps
     case["kind"] = "session:" + case["kind"]
@@ -655,6 +887,10 @@ def _session(run, case):
     snap_a, snap_b = a0.copy(), b0.copy()
     nm = case["nm"]
     fac = dict(a=1.0, b=1.0)
+    if case.get("fscale_from_testdate"):
+        # the session starts from forecasts whose factor was set by scale_to_test_date (booked by _build)
+        fac = dict(a=float(case["fscale"][0]), b=float(case["fscale"][1]))
+        run.count("session:starts-after-scale_to_test_date")
     ev = [tuple(e) for e in case["ev"]]
     pos = case.get("pos") or [[0.5, 0.5, 0.25]] * len(ev)
     mags = [4.0 + 0.5 * m + p[2] for (_, m), p in zip(ev, pos)]
@@ -668,6 +904,17 @@ def _session(run, case):
         try:
             if op == "fscale":
                 (fa if st["which"] == "a" else fb).scale(st["v"]); fac[st["which"]] = float(st["v"])
+                continue
+            if op == "testdate":
+                f = fa if st["which"] == "a" else fb
+                t = f.start_time + datetime.timedelta(days=st["t"][0], hours=st["t"][1])
+                f.scale_to_test_date(t)
+                if f.start_time < t < f.end_time:       # outside the period the forecast stays as it is
+                    fac[st["which"]] = (_decyear(t + datetime.timedelta(1)) - _decyear(f.start_time)) \
+                        / (_decyear(f.end_time) - _decyear(f.start_time))
+                    run.count("session:scale_to_test_date:inside")
+                else:
+                    run.count("session:scale_to_test_date:outside-unchanged")
                 continue
             if op == "catcut":
                 keep = [i for i, m in enumerate(mags) if m >= st["cut"]]
@@ -695,6 +942,19 @@ def _session(run, case):
             else:
                 got = _tres(res)
         except Exception as e:
+            refused = False
+            if op == "b" and len(set(ev)) < 2:
+                refused = True       # one active bin: no variance, outside "returns a result" (the present code returns nan)
+            if op == "w":
+                sa_ = (d1_ * fac[k1]) / (days[k1] if scale else 1); sb_ = (d2_ * fac[k2]) / (days[k2] if scale else 1)
+                x_ = [math.log(float(sa_[c, m])) - math.log(float(sb_[c, m])) for c, m in ev]
+                m_ = (math.fsum((d1_ * fac[k1]).ravel().tolist()) - math.fsum((d2_ * fac[k2]).ravel().tolist())) / max(len(ev), 1)
+                lg_ = [abs(math.log(float(arr[c, m]))) for arr in (sa_, sb_) for c, m in ev]
+                band_ = 64 * 2.2e-16 * max([abs(m_)] + [abs(v) for v in x_] + lg_ + [1e-300])
+                refused = not any(abs(v - m_) > band_ for v in x_)     # no difference distinct from the null median
+            if refused:
+                run.count(f"session-op:{op}:degenerate-refused-with-exception")
+                continue
             run.oracle_failure(short, f"step {k} ({op} {st['order']} scale={scale}): {type(e).__name__}: {e}")
             return
         # recomputation from scratch: stored rates x current factor (/ days), the events the catalog holds now
@@ -720,8 +980,17 @@ def _session(run, case):
             if not (_same(t1, math.fsum(ea.ravel().tolist()), 1e-12, 0.0) and _same(t2, math.fsum(eb.ravel().tolist()), 1e-12, 0.0)):
                 run.oracle_failure(short, f"step {k}: forecast totals {t1!r}, {t2!r} are not the sums of the current rates")
                 return
-            w = _ref_w(x, (t1 - t2) / n)
-            if w["count"] >= 1:
+            w = _ref_w(x, (t1 - t2) / n, keys=zip(ra, rb))
+            if w["count"] >= 1 and not w["robust"]:
+                if w["alts"] is not None:
+                    ok = any(_same(got["z"], zr) and _same(got["p"], 2.0 * float(scipy.stats.norm.sf(abs(zr))), 1e-9, 1e-300)
+                             for zr in w["alts"])
+                    why = f"W-test {got!r} is none of the admissible signed-rank results {sorted(set(round(v, 12) for v in w['alts']))[:8]!r}"
+                elif w["clear"] >= 1:
+                    ok = math.isfinite(got["z"]) and got["z"] <= 1e-12 and 0.0 <= got["p"] <= 1.0 \
+                        and _same(got["p"], 2.0 * float(scipy.stats.norm.sf(abs(got["z"]))), 1e-9, 1e-300)
+                    why = f"W-test {got!r}: not a finite z <= 0 with p = 2 sf(|z|) in [0,1]"
+            elif w["count"] >= 1:
                 zr = (float(w["t2"]) / 2 - float(w["mn4"]) / 4) / math.sqrt(float(w["se24"]) / 24)
                 pr = 2.0 * float(scipy.stats.norm.sf(abs(zr)))
                 ok = _same(got["z"], zr) and _same(got["p"], pr)
